@@ -55,6 +55,7 @@ POOL = [
     R("exon", 10, 50, [["ID", ["e1"]], ["Parent", ["m2"]], ["Note", ["z"]]]),  # 11 equal columns, other Parent
     R("mRNA", 2000, 2900, [["ID", ["m3"]], ["Parent", ["g2"]], ["Note", ["a", "b"]]]),  # 12
     R("exon", 2100, 2200, [["Parent", ["m3"]], ["Note", ["auto2"]]]),  # 13 no ID
+    R("exon", 300, 350, [["ID", ["e9"]], ["Parent", ["ghost1", "m1"]]]),  # 14 a Parent naming no stored feature
 ]
 SEED = [0, 1, 2]
 STRATEGIES = ["error", "warning", "replace", "create_unique", "merge"]
@@ -138,6 +139,14 @@ class History(object):
             return Failure("%s: directives changed to %r" % (what, snap["directives"]), sig={"kind": "directives"})
         if snap["dialect"] != self.init["dialect"] or list(self.db.dialect.items()) != list(self.init["dialect"].items()):
             return Failure("%s: dialect changed" % what, sig={"kind": "dialect"})
+        n_total = self.db.count_features_of_type()
+        if n_total != len(self.m.store):
+            return Failure("%s: count_features_of_type() = %r, %d features stored" % (what, n_total, len(self.m.store)), sig={"kind": "count"})
+        for ft in ("gene", "mRNA", "exon", "CDS", "part"):
+            want = sum(1 for mm in self.m.store.values() if mm["cols"][2] == ft)
+            if self.db.count_features_of_type(ft) != want:
+                return Failure("%s: count_features_of_type(%r) = %r, %d stored" % (what, ft, self.db.count_features_of_type(ft), want),
+                               sig={"kind": "count"})
         table = dict((b, n) for b, n in snap["autoincrements"])
         for base, n in self.m.cnt.items():
             if table.get(base, 0) < n:
@@ -193,8 +202,14 @@ class History(object):
     def _delete(self, op, before):
         ids = self.stored_ids()
         targets = []
+        # ids that relations mention although no feature is stored under them (dangling Parent
+        # values, or parents deleted earlier whose children were added again)
+        ghosts = sorted(set(x for r in self.rel for x in r[:2]) - set(ids))
         for t in op["targets"]:
-            if op["as"] == "missing" or not ids:
+            if op["as"] == "relation-only" and ghosts:
+                targets.append(ghosts[t % len(ghosts)])
+                self.flags.add("deleted-relation-only-id")
+            elif op["as"] in ("missing", "relation-only") or not ids:
                 targets.append("no-such-id-%d" % t)
             else:
                 targets.append(ids[t % len(ids)])
@@ -413,7 +428,7 @@ class MachineLeg(_Base):
             def update(self, recs, strategy, form, backup):
                 self._do({"op": "update", "recs": recs, "strategy": strategy, "form": form, "backup": backup})
 
-            @rule(which=st.lists(st.integers(0, 20), min_size=1, max_size=2), how=st.sampled_from(["id", "id", "feature", "missing"]),
+            @rule(which=st.lists(st.integers(0, 20), min_size=1, max_size=2), how=st.sampled_from(["id", "id", "feature", "missing", "relation-only"]),
                   backup=st.booleans())
             def delete(self, which, how, backup):
                 self._do({"op": "delete", "targets": which, "as": how, "backup": backup})
@@ -472,10 +487,10 @@ class MachineLeg(_Base):
 ALPHABET = [
     {"op": "update", "recs": [3], "strategy": "merge", "form": "list", "backup": False},
     {"op": "update", "recs": [4, 5], "strategy": "create_unique", "form": "generator", "backup": True},
-    {"op": "update", "recs": [10, 8, 7], "strategy": "warning", "form": "path", "backup": False},
+    {"op": "update", "recs": [10, 14, 7], "strategy": "warning", "form": "path", "backup": False},
     {"op": "update", "recs": [5, 13], "strategy": "error", "form": "list", "backup": False},
     {"op": "delete", "targets": [2], "as": "id", "backup": True},
-    {"op": "delete", "targets": [17], "as": "feature", "backup": False},
+    {"op": "delete", "targets": [17], "as": "relation-only", "backup": False},
     {"op": "reopen"},
     {"op": "add_relation", "parent": 0, "child": 2, "level": 2, "by_id": True},
 ]
